@@ -13,17 +13,17 @@ Import ListNotations.
    still pending in the outgoing BIO, are exactly the bytes the SSL object appended to the outgoing BIO, in order —
    nothing else ever reaches the wire (in particular nothing from _data_deque), nothing is dropped, duplicated or
    reordered.  ADesync marks a label that does not fit the code (the model rejects such traces). *)
-Theorem cipher_only : forall ls y acts,
-  sys_exec sys0 ls = Some (y, acts) -> ~ In ADesync (map snd acts) ->
+Theorem cipher_only : forall (fl : flags) ls y acts,
+  sys_exec fl sys0 ls = Some (y, acts) -> ~ In ADesync (map snd acts) ->
   sent (map snd acts) ++ wbio (y_sh y) = produced ls.
 Proof.
-  intros ls y acts H Hd. destruct (sys_exec_flow ls sys0 y acts H Hd) as [F _]. exact F.
+  intros fl ls y acts H Hd. destruct (sys_exec_flow fl ls sys0 y acts H Hd) as [F _]. exact F.
 Qed.
 Print Assumptions cipher_only.
 
 (* (i') each single payload is the whole outgoing BIO at that moment (write_bio.read()), and empties it. *)
-Theorem every_send_is_the_outgoing_bio : forall m b s p l s' p' a w,
-  step m b s p l = Some (s', p', a) -> In (ASend w) a -> w = wbio s /\ wbio s' = [] /\ l = LGo.
+Theorem every_send_is_the_outgoing_bio : forall (fl : flags) m b s p l s' p' a w,
+  step fl m b s p l = Some (s', p', a) -> In (ASend w) a -> w = wbio s /\ wbio s' = [] /\ l = LGo.
 Proof. exact step_send_is_wbio. Qed.
 Print Assumptions every_send_is_the_outgoing_bio.
 
@@ -36,59 +36,59 @@ Print Assumptions every_send_is_the_outgoing_bio.
    the plaintext handed to send_all on the other side — in order, nothing duplicated — in BOTH directions.
    Relative to IdealTls; the network is reliable (failures, end-of-file, cancellation and unwrap() are not transitions
    of the composed system — for those the pump-level theorems (i), (ii-a/b) hold with arbitrary oracles). *)
-Theorem pump_transparent : forall (E D : byte -> byte) (M : nat),
+Theorem pump_transparent : forall (fl : flags) (E D : byte -> byte) (M : nat),
   (forall x, D (E x) = x) ->
   forall ls c,
-  dexec E D M duplex0 ls = Some c ->
+  dexec fl E D M duplex0 ls = Some c ->
   is_prefix (e_got (dB c)) (e_written (dA c)) /\ is_prefix (e_got (dA c)) (e_written (dB c)).
-Proof. intros E D M DE. exact (duplex_transparent E D M DE). Qed.
+Proof. intros fl E D M DE. exact (duplex_transparent fl E D M DE). Qed.
 Print Assumptions pump_transparent.
 
 (* (ii') ... and nothing is lost on the way: in every reachable state, for each direction, the receiver's incoming BIO,
    the bytes in flight and the sender's outgoing BIO are a sequence of whole records, and
    returned ++ decrypted-but-unreturned ++ payloads of the data records in that stream ++ sender's backlog = written. *)
-Theorem pump_transparent_exact : forall (E D : byte -> byte) (M : nat),
+Theorem pump_transparent_exact : forall (fl : flags) (E D : byte -> byte) (M : nat),
   (forall x, D (E x) = x) ->
   forall ls c,
-  dexec E D M duplex0 ls = Some c ->
+  dexec fl E D M duplex0 ls = Some c ->
   TInv E (dA c) (dB c) (nAB c) /\ TInv E (dB c) (dA c) (nBA c).
 Proof.
-  intros E D M DE ls c H. destruct (DInv_exec E D M DE _ _ _ H (DInv_init E)) as [I1 [I2 _]]. auto.
+  intros fl E D M DE ls c H. destruct (DInv_exec fl E D M DE _ _ _ H (DInv_init E)) as [I1 [I2 _]]. auto.
 Qed.
 Print Assumptions pump_transparent_exact.
 
 (* (ii-a) send side = cipher_only above, for ARBITRARY oracles: the wire carries exactly the SSL object's output, in
    order.  (ii-b) receive side: the bytes written into the incoming BIO, in order, are exactly the bytes recv_into
    returned, in order — for every trace, every fragmentation, every interleaving, every answer (incl. failures). *)
-Theorem pump_data_flow : forall ls y acts,
-  sys_exec sys0 ls = Some (y, acts) -> ~ In ADesync (map snd acts) ->
+Theorem pump_data_flow : forall (fl : flags) ls y acts,
+  sys_exec fl sys0 ls = Some (y, acts) -> ~ In ADesync (map snd acts) ->
   sent (map snd acts) ++ wbio (y_sh y) = produced ls /\ fed (map snd acts) = received ls.
 Proof.
-  intros ls y acts H Hd. exact (sys_exec_flow ls sys0 y acts H Hd).
+  intros fl ls y acts H Hd. exact (sys_exec_flow fl ls sys0 y acts H Hd).
 Qed.
 Print Assumptions pump_data_flow.
 
 (* (ii-d) lock mutual exclusion, for every trace and arbitrary oracles: the send lock is held iff exactly one task is
    inside transport.send_all, the recv lock iff exactly one is inside transport.recv_into (so at most one each) ... *)
-Theorem lock_mutual_exclusion : forall ls y acts,
-  sys_exec sys0 ls = Some (y, acts) ->
+Theorem lock_mutual_exclusion : forall (fl : flags) ls y acts,
+  sys_exec fl sys0 ls = Some (y, acts) ->
   count is_sending (y_tasks y) = b2n (send_lock (y_sh y)) /\
   count is_recving (y_tasks y) = b2n (recv_lock (y_sh y)) /\
   count is_sending (y_tasks y) <= 1 /\ count is_recving (y_tasks y) <= 1.
 Proof.
-  intros ls y acts H. destruct (LockInv_exec ls sys0 y acts H LockInv_init) as [A B].
+  intros fl ls y acts H. destruct (LockInv_exec fl ls sys0 y acts H LockInv_init) as [A B].
   split; [exact A |]. split; [exact B |]. rewrite A, B.
   destruct (send_lock (y_sh y)), (recv_lock (y_sh y)); cbn; auto.
 Qed.
 Print Assumptions lock_mutual_exclusion.
 
 (* ... and a send_all / recv_into on the wrapped transport is STARTED only when no other one is in flight. *)
-Theorem no_overlapping_transport_calls : forall ls y acts t lb y' a,
-  sys_exec sys0 ls = Some (y, acts) -> sys_step y (SStep t lb) = Some (y', a) ->
+Theorem no_overlapping_transport_calls : forall (fl : flags) ls y acts t lb y' a,
+  sys_exec fl sys0 ls = Some (y, acts) -> sys_step fl y (SStep t lb) = Some (y', a) ->
   (forall w, In (t, ASend w) a -> count is_sending (y_tasks y) = 0) /\
   (In (t, ARecv) a -> count is_recving (y_tasks y) = 0).
 Proof.
-  intros ls y acts t lb y' a H S. exact (start_needs_free_lock y t lb y' a (LockInv_exec ls sys0 y acts H LockInv_init) S).
+  intros fl ls y acts t lb y' a H S. exact (start_needs_free_lock fl y t lb y' a (LockInv_exec fl ls sys0 y acts H LockInv_init) S).
 Qed.
 Print Assumptions no_overlapping_transport_calls.
 
@@ -111,27 +111,29 @@ Print Assumptions ideal_decodes_only_complete_records.
 
 (* (iii-a) WANT_READ with ciphertext pending and the send lock free: the task's next action is send_all(everything
    pending) and it is then NOT yet reading. *)
-Theorem pump_progress_partial : forall m b s x,
+Theorem pump_progress_partial : forall (fl : flags) m b s x,
   a_meth x = m -> a_arg x = expected_arg m b s -> a_out x = SWantRead ->
   send_lock s = false -> wbio s ++ a_wdelta x <> [] ->
   exists s1 s2,
-    step m b s PCall (LSsl x) = Some (s1, PFlush (KRead (feeds s)), []) /\
-    settle m s1 (PFlush (KRead (feeds s))) = (s2, PSending (KRead (feeds s)), [ASend (wbio s ++ a_wdelta x)]) /\
+    step fl m b s PCall (LSsl x) = Some (s1, PFlush (KRead (feeds s)), []) /\
+    settle fl m s1 (PFlush (KRead (feeds s))) = (s2, PSending (KRead (feeds s)), [ASend (wbio s ++ a_wdelta x)]) /\
     wbio s2 = [].
 Proof. exact wantread_flushes_first. Qed.
 Print Assumptions pump_progress_partial.
 
 (* (iii-b) a task gets to "waiting to read" only through the flush point of the WANT_READ branch: either the outgoing
-   BIO was empty while it held the send lock, or its send_all of the whole outgoing BIO has returned. *)
-Theorem read_only_after_flush : forall m b s p l s' a n,
-  step m b s p l = Some (s', PRecvWait n, a) ->
-  (p = PFlush (KRead n) /\ l = LGo /\ wbio s = [] /\ a = []) \/ (p = PSending (KRead n) /\ l = LT TSent).
+   BIO was empty while it held the send lock, or its send_all of the whole outgoing BIO has returned, or (with the
+   send-lock-only-if-pending fix) the outgoing BIO was empty right after the SSL call. *)
+Theorem read_only_after_flush : forall (fl : flags) m b s p l s' a n,
+  step fl m b s p l = Some (s', PRecvWait n, a) ->
+  (p = PFlush (KRead n) /\ l = LGo /\ wbio s = [] /\ a = []) \/ (p = PSending (KRead n) /\ l = LT TSent) \/
+  (p = PCall /\ (exists x, l = LSsl x /\ a_out x = SWantRead) /\ wbio s' = [] /\ a = []).
 Proof. exact recvwait_only_after_flush. Qed.
 Print Assumptions read_only_after_flush.
 
 (* (iii-c) recv_into is started only from "waiting to read". *)
-Theorem recv_into_only_from_waiting : forall m b s p l s' p' a,
-  step m b s p l = Some (s', p', a) -> In ARecv a -> (exists n, p = PRecvWait n) /\ l = LGo /\ p' = PRecving.
+Theorem recv_into_only_from_waiting : forall (fl : flags) m b s p l s' p' a,
+  step fl m b s p l = Some (s', p', a) -> In ARecv a -> (exists n, p = PRecvWait n) /\ l = LGo /\ p' = PRecving.
 Proof. exact recv_only_from_recvwait. Qed.
 Print Assumptions recv_into_only_from_waiting.
 
@@ -148,7 +150,7 @@ Definition ex_trace : list slab :=
     SStep 2 (LSsl {| a_meth := MRead; a_arg := 10; a_out := SWantRead; a_wdelta := [] |});
     SStep 2 LGo; SStep 2 (LT TSent); SStep 1 LGo; SStep 2 LGo ].
 Example ex_accepts :
-  option_map (fun r => (map snd (snd r), wbio (y_sh (fst r)))) (sys_exec sys0 ex_trace)
+  option_map (fun r => (map snd (snd r), wbio (y_sh (fst r)))) (sys_exec {| f_recheck := false; f_skiplock := false |} sys0 ex_trace)
   = Some ([ASend [7; 7]%N; ARecv; AFeed [9]%N; ASend [5; 5; 5; 5]%N; ARecv], []).
 Proof. vm_compute. reflexivity. Qed.
 Example ex_cipher_only :
